@@ -243,4 +243,4 @@ def signature(case, impl_obs, model_obs):
     return "%s:%s" % (case.engine, kind)
 
 
-PARTS = [{"name": "vm_aggr", "harness": "vm_aggr.cpp", "gen": gen, "timeout_case": 20}]
+PARTS = [{"name": "vm_aggr", "harness": "vm_aggr.cpp", "gen": gen, "timeout_case": 3}]
